@@ -137,6 +137,10 @@ func coqValue(v interface{}) string {
 		return "VStrSet " + coqStrList(ks)
 	case Opaque:
 		return fmt.Sprintf("VOpaque %d", x.ID)
+	case int:
+		// a plain Go int (a ConstantMap value the caller did not write as int64) is NOT an integer of the engine: it
+		// equals only itself and fails every typed operator - an opaque value
+		return fmt.Sprintf("VOpaque %d", 1000000+x)
 	default:
 		if v == eval.DNE {
 			return "VDNE"
